@@ -1317,3 +1317,66 @@ def serializable_reason(model: ir.Model) -> str | None:
         if r:
             return "function: " + r
     return None
+
+
+def serializable_core(graph: ir.Graph) -> bool:
+    """Independent re-implementation of the Lean predicate `IrVerif.Scope.serializableB` (the
+    hypothesis of C03_roundtrip) on the main graph tree; used to check that the oracle's gate
+    `serializable_reason` implies the theorem's hypothesis."""
+
+    def truthy(v):
+        return bool(v.name)
+
+    def live(n):
+        return _strip_trailing(n.outputs)
+
+    def defs(g):
+        ins = list(g.inputs)
+        res = list(ins)
+        res += [v for v in g.initializers.values() if not any(v is x for x in ins)]
+        for n in g:
+            res += live(n)
+        return res
+
+    all_defs: list = []
+
+    def ok_graph(g, od) -> bool:
+        D = defs(g)
+        all_defs.extend(D)
+        if any(any(v is o for o in od) for v in D):
+            return False
+        vis = D + od
+        for a in vis:
+            if truthy(a):
+                for b in vis:
+                    if a.name == b.name and a is not b:
+                        return False
+        if not all(truthy(v) for v in g.inputs):
+            return False
+        keys, vals = [], []
+        for k, v in g.initializers.items():
+            if v.name != k or k == "" or v.const_value is None:
+                return False
+            keys.append(k)
+            vals.append(id(v))
+        if len(set(keys)) != len(keys) or len(set(vals)) != len(vals):
+            return False
+        for v in g.outputs:
+            if not any(v is d for d in D) or not truthy(v):
+                return False
+        for n in g:
+            for v in n.inputs:
+                if v is not None and (not any(v is x for x in vis) or not truthy(v)):
+                    return False
+            for v in n.outputs:
+                if v.name is None:
+                    return False
+            for s in _subgraphs_of_node(n):
+                if not ok_graph(s, vis):
+                    return False
+        return True
+
+    r = ok_graph(graph, [])
+    ids = [id(v) for v in all_defs]
+    return r and len(ids) == len(set(ids))
+
